@@ -231,6 +231,21 @@ Theorem C05_compose_voxel_world : forall V nifti ops (im im' : img V),
 Proof. exact @compose_voxel_world. Qed.
 Print Assumptions C05_compose_voxel_world.
 
+(* frame condition: get_fdata (any dtype, filling the cache or not), in-place edits of the cached
+   array and uncache(), interleaved anywhere with slicer / as_reoriented calls and from any initial
+   cache state, do not change the resulting image: it is what the plain sequence gives from the
+   source dataobj alone (so C05_compose_voxel_world applies to it) *)
+Theorem C05_cache_frame : forall V nifti (xs : list (cop V)) (c c' : cimg V),
+  run_cops nifti c xs = Ok5 c' -> run_ops nifti (c_im c) (ops_of xs) = Ok5 (c_im c').
+Proof. exact @cache_frame. Qed.
+Print Assumptions C05_cache_frame.
+
+Theorem C05_cache_independent : forall V nifti (xs ys : list (cop V)) (im : img V) k1 k2 c1 c2,
+  ops_of xs = ops_of ys ->
+  run_cops nifti (mkC im k1) xs = Ok5 c1 -> run_cops nifti (mkC im k2) ys = Ok5 c2 -> c_im c1 = c_im c2.
+Proof. exact @cache_independent. Qed.
+Print Assumptions C05_cache_independent.
+
 (* axis codes with ANY table of three label pairs whose six codes are pairwise distinct
    (the default LR/PA/IS is one instance): ornt2axcodes / axcodes2ornt round trip for all 48 *)
 Theorem C05_axcodes_any_labels : forall a0 b0 a1 b1 a2 b2,
